@@ -3,4 +3,4 @@ import Operon.Model.CoordDrv
 /-! Line-protocol driver for the coordination model (C15). -/
 open Operon Operon.Proto Operon.Coord
 
-def main : IO Unit := runDriver ({} : Sys) step
+def main : IO Unit := runDriver ({} : Multi) stepMulti
